@@ -472,6 +472,8 @@ fn tmp_path(tag: &str) -> std::path::PathBuf {
 /// the bytes `save()` writes
 fn image_of(g: &AnyG) -> Result<Vec<u8>, String> {
     let p = tmp_path("save");
+    // the path already holds a longer file: "the file written by save()" must be the new image and nothing else
+    std::fs::write(&p, vec![0xABu8; 256 * 1024]).map_err(|e| e.to_string())?;
     with_g!(g, x => x.save(&p).map_err(|e| e.to_string()))?;
     let b = std::fs::read(&p).map_err(|e| e.to_string())?;
     let _ = std::fs::remove_file(&p);
@@ -686,6 +688,8 @@ impl World {
                         let size = img.len();
                         let mut tested = 0;
                         let mut bad = vec![];
+                        // at most about 20000 cut points per image (an image that large is abnormal anyway)
+                        let step = step.max(size / 20000);
                         for k in 0..size {
                             if !(step <= 1 || k % step == 0 || size - k <= 64 || k < 64) {
                                 continue;
